@@ -103,6 +103,46 @@ class USweep:
         return v
 
 
+class KeyedUSweep(USweep):
+    """Sweep abstraction for solvers whose sweep depends on a pseudo-random key (shuffled visiting order): the key
+    used by the code is an extra argument, so reusing / skipping / resetting keys shows up as a different term.
+    `schedule[i]` is the documented key of sweep i+1 (successive splits of PRNGKey(random_seed))."""
+    keyed = True
+
+    def __init__(self, S, name, schedule):
+        super().__init__(S, name, extra_int_args=1)
+        self.schedule = list(schedule)
+        self.cur = None
+        self.klog = []
+
+    def set_key(self, kid):
+        self.cur = kid
+
+    def __call__(self, values, extra=()):
+        self.klog.append(self.cur)
+        return super().__call__(values, extra=[self.cur])
+
+    def apply_terms(self, v, extra=(), step=None):
+        if not extra:
+            extra = [self.schedule[step]]
+        return super().apply_terms(v, extra)
+
+
+def key_id(k):
+    w = np.asarray(k).reshape(-1)
+    return int(w[0]) * 2 ** 32 + int(w[1])
+
+
+def key_schedule(seed, n):
+    import jax
+    key = jax.random.PRNGKey(seed)
+    out = []
+    for _ in range(n):
+        key, sub = jax.random.split(key)
+        out.append(key_id(sub))
+    return out
+
+
 def span_terms(new, old):
     d = [zx.sub(a, b) for a, b in zip(new, old)]
     mx, mn = d[0], d[0]
